@@ -119,7 +119,7 @@ def evalAll (v : Variant) (attr : Toks) (item : Item) (input : Toks) (m : Outcom
           -- second stage of a concrete-dependency fn: `Impl<T>` must forward to `T: Trait`
           row "C05" (if (metaGet info "nested").isSome then P_C06 attr item else P_C05 v attr item),
           row "C06" (P_C06 attr item),
-          row "C07" (P_C07 v attr item),
+          row "C07" (P_C07 attr item),
           row "C08" (P_C08 attr item (metaList info "fns")),
           row "C09" (P_C09 v attr item),
           -- the second stage of a concrete-dependency fn: the nested invocation must not mock
